@@ -12,6 +12,7 @@
  * restriction is an OBLIGATION ("gmp model range ..."), not an assumption: a proof only goes through if the
  * contract's precondition keeps every operand and every result inside the range.  The generalisation to
  * larger magnitudes is the assumption "GMP is magnitude-oblivious" listed in unit.json.
+ * A second representation without heap (-DGM_FLAT, |value| < 2^94) serves the composite functions: see gm_get.
  *
  * What is assumed (trusted) here and nowhere else:
  *   - the arithmetic meaning of each entry point as written below (add/sub/mul/neg exact, tdiv_q/tdiv_r
@@ -123,7 +124,14 @@ void __gmpz_neg(MPZ *r, MPZ *a){ i128 x = gm_get(a); gm_put(r, -x); }
  * cdiv, which would be different symbols) to the RIGHT operands in the RIGHT order and delivers its result unchanged. */
 static inline i128 gm_abs(i128 a){ return a < 0 ? -a : a; }
 #ifdef GM_PRECISE
-i128 GM_mul(i128 a, i128 b){ return a * b; }
+/* product through the magnitudes (a 64 x 64 -> 128 bit unsigned multiplication when both fit 64 bits, as they do under the
+ * model's operand bound): the same value as a * b, in a form the SAT back end can decide for small operands */
+static inline u128 gm_uabs_(i128 a){ return a < 0 ? (u128)0 - (u128)a : (u128)a; }
+i128 GM_mul(i128 a, i128 b){
+  u128 x = gm_uabs_(a), y = gm_uabs_(b);
+  if ((x >> 64) != 0 || (y >> 64) != 0) return a * b;
+  u128 m = (u128)(uint64_t)x * (u128)(uint64_t)y;
+  return ((a < 0) != (b < 0)) ? (i128)((u128)0 - m) : (i128)m; }
 i128 GM_tdiv(i128 a, i128 b){ return a / b; }
 i128 GM_trem(i128 a, i128 b){ return a % b; }
 #else
@@ -267,12 +275,13 @@ uint8_t *__gmpz_export(uint8_t *rop, uint64_t *countp, uint32_t order, uint64_t 
  * Coprimality is the uninterpreted predicate gm_coprime with the axioms in GM_coprime(); the canonical representative
  * of an arbitrary pair and the canonical results of + - * / are uninterpreted functions with the axioms stated at
  * each of them (positive denominator, coprime, sign, exact on integers).  The contracts use the same symbols. */
-__CPROVER_bool __CPROVER_uninterpreted_gm_coprime(i128, i128);
+__CPROVER_bool __CPROVER_uninterpreted_gm_coprime(u128, u128);
+static inline u128 gm_uabs(i128 a){ return a < 0 ? (u128)0 - (u128)a : (u128)a; }   /* never overflows */
 bool GM_coprime(i128 n, i128 d){
   if (d == 1 || d == -1 || n == 1 || n == -1) return 1;
   if (n == 0 || d == 0) return 0;                       /* gcd(0, d) = |d| != 1, gcd(n, 0) = |n| != 1 */
-  if (n == d || n == -d) return 0;
-  return __CPROVER_uninterpreted_gm_coprime(n < 0 ? -n : n, d < 0 ? -d : d); }   /* gcd ignores signs */
+  if (gm_uabs(n) == gm_uabs(d)) return 0;
+  return __CPROVER_uninterpreted_gm_coprime(gm_uabs(n), gm_uabs(d)); }   /* gcd ignores signs */
 bool GM_canon(i128 n, i128 d){ return d > 0 && GM_coprime(n, d); }
 /* canonical representative (numerator, denominator) of n/d, d != 0 */
 i128 __CPROVER_uninterpreted_gm_cann(i128, i128);
@@ -380,3 +389,47 @@ void __gmpq_mul_2exp(MPQ *r, MPQ *a, uint64_t k){
   __CPROVER_assume(m < ((u128)GM_LIM >> k));
   m <<= k;
   gm_put(rn, n < 0 ? -(i128)m : (i128)m); gm_put(QD(r), 1); }
+
+/* ================================================================== entry points lib/bignums.cpp does not call today.
+ * They are modelled so that a change of the wrapper to a neighbouring GMP function (fdiv for tdiv, tdiv_q_2exp for
+ * fdiv_q_2exp, ...) is judged against the contract (a violation) instead of stopping the run with "no body". */
+static i128 gm_fdiv(i128 x, i128 y){ i128 q = GM_tdiv(x, y), r = GM_trem(x, y); return (r != 0 && ((r < 0) != (y < 0))) ? q - 1 : q; }
+static i128 gm_cdiv(i128 x, i128 y){ i128 q = GM_tdiv(x, y), r = GM_trem(x, y); return (r != 0 && ((r < 0) == (y < 0))) ? q + 1 : q; }
+#define GM_DIVFN(name, EXPR) void name(MPZ *r, MPZ *a, MPZ *b){ i128 x = gm_get(a), y = gm_get(b); \
+  __CPROVER_assert(y != 0, "gmp: division by zero"); __CPROVER_assume(y != 0); gm_put(r, EXPR); }
+GM_DIVFN(__gmpz_fdiv_q, gm_fdiv(x, y))
+GM_DIVFN(__gmpz_cdiv_q, gm_cdiv(x, y))
+/* the remainders of floor / ceiling division: x - q*y, i.e. the truncated remainder corrected by the divisor */
+GM_DIVFN(__gmpz_fdiv_r, (GM_trem(x, y) != 0 && ((GM_trem(x, y) < 0) != (y < 0))) ? GM_trem(x, y) + y : GM_trem(x, y))
+GM_DIVFN(__gmpz_cdiv_r, (GM_trem(x, y) != 0 && ((GM_trem(x, y) < 0) == (y < 0))) ? GM_trem(x, y) - y : GM_trem(x, y))
+/* r = a / 2^k rounded towards zero */
+void __gmpz_tdiv_q_2exp(MPZ *r, MPZ *a, uint64_t k){
+  i128 x = gm_get(a); u128 m = gm_uabs(x); m = k >= 127 ? (u128)0 : (m >> k);
+  gm_put(r, x < 0 ? -(i128)m : (i128)m); }
+void __gmpz_cdiv_q_2exp(MPZ *r, MPZ *a, uint64_t k){
+  i128 x = gm_get(a); i128 f = k >= 127 ? (x < 0 ? (i128)-1 : (i128)0) : (x >> k);
+  bool exact = k >= 127 ? x == 0 : ((f << k) == x);
+  gm_put(r, exact ? f : f + 1); }
+void __gmpz_abs(MPZ *r, MPZ *a){ i128 x = gm_get(a); gm_put(r, x < 0 ? -x : x); }
+void __gmpz_com(MPZ *r, MPZ *a){ i128 x = gm_get(a); gm_put(r, ~x); }      /* one's complement: -x - 1 */
+uint32_t __gmpz_cmp_si(MPZ *a, uint64_t n){ i128 x = gm_get(a); return gm_sign_result(x, (i128)(int64_t)n); }
+uint32_t __gmpz_cmp_ui(MPZ *a, uint64_t n){ i128 x = gm_get(a); return gm_sign_result(x, (i128)(u128)n); }
+void __gmpz_set_si(MPZ *r, uint64_t n){ gm_put(r, (i128)(int64_t)n); }
+void __gmpz_init_set_ui(MPZ *r, uint64_t n){ gm_alloc(r); gm_put(r, (i128)(u128)n); }
+void __gmpz_swap(MPZ *a, MPZ *b){ MPZ t = *a; *a = *b; *b = t; }
+void __gmpz_mul_si(MPZ *r, MPZ *a, uint64_t n){ i128 x = gm_get(a); gm_put(r, gm_mul(x, (i128)(int64_t)n)); }
+void __gmpz_mul_ui(MPZ *r, MPZ *a, uint64_t n){ i128 x = gm_get(a); gm_put(r, gm_mul(x, (i128)(u128)n)); }
+uint32_t __gmpz_fits_ulong_p(MPZ *a){ i128 x = gm_get(a); uint32_t c = gm_nondet_u32(); __CPROVER_assume((c != 0) == (x >= 0 && x < ((i128)1 << 64))); return c; }
+/* rationals */
+uint32_t __gmpq_equal(MPQ *a, MPQ *b){
+  i128 an = gm_get(QN(a)), ad = gm_get(QD(a)), bn = gm_get(QN(b)), bd = gm_get(QD(b));
+  gm_canon_check(an, ad); gm_canon_check(bn, bd);
+  uint32_t c = gm_nondet_u32(); __CPROVER_assume((c != 0) == (an == bn && ad == bd)); return c; }   /* canonical forms are unique */
+void __gmpq_set_num(MPQ *q, MPZ *n){ gm_put(QN(q), gm_get(n)); }
+void __gmpq_set_den(MPQ *q, MPZ *d){ gm_put(QD(q), gm_get(d)); }
+void __gmpq_get_num(MPZ *n, MPQ *q){ gm_put(n, gm_get(QN(q))); }
+void __gmpq_get_den(MPZ *d, MPQ *q){ gm_put(d, gm_get(QD(q))); }
+void __gmpq_abs(MPQ *r, MPQ *a){ i128 n = gm_get(QN(a)), d = gm_get(QD(a)); gm_canon_check(n, d); gm_put(QN(r), n < 0 ? -n : n); gm_put(QD(r), d); }
+void __gmpq_inv(MPQ *r, MPQ *a){ i128 n = gm_get(QN(a)), d = gm_get(QD(a)); gm_canon_check(n, d);
+  __CPROVER_assert(n != 0, "gmp: division by zero"); __CPROVER_assume(n != 0);
+  gm_put(QN(r), n < 0 ? -d : d); gm_put(QD(r), n < 0 ? -n : n); }
